@@ -15,6 +15,7 @@ import (
 
 	"google.golang.org/grpc"
 	"google.golang.org/grpc/codes"
+	"google.golang.org/grpc/metadata"
 	"google.golang.org/grpc/stats"
 	"google.golang.org/grpc/status"
 	"google.golang.org/protobuf/encoding/protojson"
@@ -38,6 +39,10 @@ type Opts struct {
 	Unary  string `json:"unary,omitempty"`
 	Stream string `json:"stream,omitempty"`
 	Stats  bool   `json:"stats,omitempty"`
+	// Mutate (with Stats): the stats handler edits every map it is handed
+	// (InHeader.Header, OutHeader.Header, OutTrailer.Trailer), as a handler
+	// that redacts before logging does.
+	Mutate bool `json:"mutate,omitempty"`
 }
 
 func (o Opts) key() string {
@@ -48,7 +53,9 @@ func (o Opts) key() string {
 	if o.Stream != "" {
 		p = append(p, "stream-icpt="+o.Stream)
 	}
-	if o.Stats {
+	if o.Stats && o.Mutate {
+		p = append(p, "stats-mutating")
+	} else if o.Stats {
 		p = append(p, "stats")
 	}
 	if len(p) == 0 {
@@ -61,7 +68,7 @@ func (o Opts) none() bool { return o == Opts{} }
 
 // subsetOf: every option enabled in o is enabled (same mode) in p.
 func (o Opts) subsetOf(p Opts) bool {
-	return (o.Unary == "" || o.Unary == p.Unary) && (o.Stream == "" || o.Stream == p.Stream) && (!o.Stats || p.Stats)
+	return (o.Unary == "" || o.Unary == p.Unary) && (o.Stream == "" || o.Stream == p.Stream) && (!o.Stats || p.Stats) && (!o.Mutate || p.Mutate)
 }
 
 // RPCCase is one replayable RPC of the C18 workload.
@@ -326,7 +333,7 @@ func (s *rpcSvc) muxFor(target string, o Opts) (*larking.Mux, error) {
 		mo = append(mo, larking.StreamServerInterceptorOption(s.streamIcpt(o.Stream)))
 	}
 	if o.Stats {
-		mo = append(mo, larking.StatsOption(&statsRec{s}))
+		mo = append(mo, larking.StatsOption(&statsRec{s: s, mutate: o.Mutate}))
 	}
 	var m *larking.Mux
 	var err error
@@ -358,7 +365,14 @@ func replacement() proto.Message {
 	return m
 }
 
+// noteMD logs the request metadata the handler (or back-end) can see.
+func (s *rpcSvc) noteMD(sc *rscn, ctx context.Context) {
+	md, _ := metadata.FromIncomingContext(ctx)
+	sc.add("h", "md", fmt.Sprintf("authorization=%q x-meta=%q x-added-by-stats-handler=%q", md.Get("authorization"), md.Get("x-meta"), md.Get("x-added-by-stats-handler")), nil, 0, nil)
+}
+
 func (s *rpcSvc) noteCtx(sc *rscn, ctx context.Context) {
+	s.noteMD(sc, ctx)
 	if v, _ := ctx.Value(ctxValKey{}).(string); v != "" {
 		sc.add("h", "ctxval", v, nil, 0, nil)
 	}
@@ -557,7 +571,29 @@ func (s *rpcSvc) ctxFn(ctx context.Context, fullMethod string, isClientStream, i
 
 // ---- stats handler
 
-type statsRec struct{ s *rpcSvc }
+type statsRec struct {
+	s      *rpcSvc
+	mutate bool
+}
+
+// scribble edits a metadata map the way a redacting stats handler does.
+func scribble(md map[string][]string) {
+	if md == nil {
+		return
+	}
+	for k, v := range md {
+		switch k {
+		case "x-scn":
+		case "authorization":
+			for i := range v {
+				v[i] = "redacted"
+			}
+		case "x-meta":
+			delete(md, k)
+		}
+	}
+	md["x-added-by-stats-handler"] = []string{"1"}
+}
 
 func (h *statsRec) TagConn(ctx context.Context, _ *stats.ConnTagInfo) context.Context { return ctx }
 func (h *statsRec) HandleConn(context.Context, stats.ConnStats)                       {}
@@ -589,6 +625,9 @@ func (h *statsRec) HandleRPC(ctx context.Context, st stats.RPCStats) {
 	switch e := st.(type) {
 	case *stats.InHeader:
 		name, info = "InHeader", e.FullMethod
+		if h.mutate {
+			scribble(e.Header)
+		}
 	case *stats.Begin:
 		name, info = "Begin", fmt.Sprintf("cs=%v ss=%v", e.IsClientStream, e.IsServerStream)
 	case *stats.InPayload:
@@ -605,8 +644,14 @@ func (h *statsRec) HandleRPC(ctx context.Context, st stats.RPCStats) {
 		kept = &keptEvent{ev: e, dir: "Out", length: e.Length, wire: e.WireLength, payload: e.Payload}
 	case *stats.OutHeader:
 		name = "OutHeader"
+		if h.mutate {
+			scribble(e.Header)
+		}
 	case *stats.OutTrailer:
 		name = "OutTrailer"
+		if h.mutate {
+			scribble(e.Trailer)
+		}
 	case *stats.InTrailer:
 		name = "InTrailer"
 	case *stats.End:
@@ -669,7 +714,7 @@ func protoDelimited(msgs [][]byte) []byte {
 }
 
 func (s *rpcSvc) request(c *RPCCase, id string) (*http.Request, bool) {
-	hdr := http.Header{"X-Scn": {id}}
+	hdr := http.Header{"X-Scn": {id}, "Authorization": {"Bearer secret-token"}, "X-Meta": {"v1", "v2"}}
 	if c.Timeout != "" && !strings.HasPrefix(c.Proto, "http") {
 		hdr.Set("Grpc-Timeout", c.Timeout)
 	}
@@ -738,6 +783,8 @@ type outcome struct {
 	GOK   bool
 	GCode int
 	GMsg  string
+	// request metadata as the handler saw it
+	HandlerMD string
 }
 
 func transcriptOf(c *RPCCase, r *wire.Resp) string {
@@ -785,6 +832,11 @@ func (s *rpcSvc) exec(c *RPCCase) (*outcome, error) {
 	out := &outcome{Events: sc.snapshot(), Panic: resp.Panic, Wedged: resp.Wedged, Bodyless: bodyless}
 	if !resp.Wedged {
 		out.Transcript = transcriptOf(c, resp)
+		// what the handler saw of the request metadata is part of the outcome
+		// (compared where the same script runs with and without options)
+		if e := last(out.Events, "h", "md"); e != nil {
+			out.HandlerMD = e.Info
+		}
 		if pc := c.protoClass(); pc == "grpc" || pc == "web" {
 			out.GCode, out.GMsg, _, out.GOK = resp.GRPCStatus()
 			if !out.GOK && pc == "web" {
@@ -1225,10 +1277,11 @@ func (g *c18run) baseline(ref *RPCCase) (string, bool) {
 		g.r.Count("baseline_panics", 1)
 		return "", false
 	}
+	t = o.Transcript + "\x00" + o.HandlerMD
 	g.mu.Lock()
-	g.bases[k] = o.Transcript
+	g.bases[k] = t
 	g.mu.Unlock()
-	return o.Transcript, true
+	return t, true
 }
 
 // group runs one script under a list of option sets and reports the minimal
@@ -1251,8 +1304,10 @@ func (g *c18run) group(base RPCCase, optsList []Opts) {
 		// what a deciding interceptor returns
 		racy := (c.proxied() && !c.unary() && o.Stream == "deny") || (c.Target == "proxy-down" && decides)
 		want, ok := "", true
+		wantMD := ""
 		if !racy {
 			want, ok = g.baseline(ref)
+			want, wantMD, _ = strings.Cut(want, "\x00")
 		}
 		if !ok {
 			continue
@@ -1302,6 +1357,11 @@ func (g *c18run) group(base RPCCase, optsList []Opts) {
 		plain := c
 		plain.Opts = Opts{}
 		deciding := ref.baseKey() != plain.baseKey()
+		if !deciding && !racy && !(c.proxied() && c.ended()) && out.HandlerMD != wantMD {
+			// same script, same request: the handler must see the same metadata
+			out.Transcript += " | handler saw " + out.HandlerMD
+			want += " | handler saw " + wantMD
+		}
 		if endedProxied {
 			g.r.Count("outcomes_without_reference", 1)
 			results = append(results, res{o: o})
@@ -1542,6 +1602,22 @@ func RunC18(r *mon.Run) {
 						c.In = nil
 					}
 					jobs = append(jobs, job{c, downOpts})
+				}
+			}
+		}
+	}
+	// a stats handler that edits the maps it is handed
+	mutOpts := []Opts{{}, {Stats: true, Mutate: true}, {Unary: "rec", Stream: "rec", Stats: true, Mutate: true}}
+	for _, target := range []string{"local", "proxy"} {
+		for _, method := range methods {
+			for _, p := range protosFor(method) {
+				for _, fail := range []bool{false, true} {
+					in, out := shapeIO(method, 5, 2, 2)
+					c := RPCCase{Part: "rpc", Target: target, Proto: p, Method: method, In: in, Out: out, Fail: fail, Code: 5, Msg: "nope"}
+					if p == "http-get" || p == "http-nobody" {
+						c.In = nil
+					}
+					jobs = append(jobs, job{c, mutOpts})
 				}
 			}
 		}
